@@ -916,6 +916,29 @@ impl LsmCommitEnv {
 	}
 }
 
+impl LsmCommitEnv {
+	/// Adds the batch to the given active memtable (caller holds its read lock, so the
+	/// memtable cannot be rotated and the WAL cannot change segment meanwhile).
+	///
+	/// A memtable is recovered from the WAL segment it is bound to, and that segment's
+	/// predecessors are deleted as soon as the *previous* memtable has been flushed. If
+	/// this batch's record was appended to an earlier segment - the memtable was rotated
+	/// between the WAL append and this apply, or by this very apply when the arena was
+	/// full - the record would be gone while the batch is still only in memory. Log the
+	/// batch again in the segment that belongs to the memtable receiving it.
+	fn add_to_active(&self, active_memtable: &MemTable, batch: &Batch) -> Result<()> {
+		if let Some(wal_number) = batch.wal_number {
+			if wal_number != active_memtable.get_wal_number() {
+				let enc_bytes = batch.encode()?;
+				let mut wal_guard = self.core.wal.write();
+				wal_guard.append(&enc_bytes)?;
+				wal_guard.sync()?;
+			}
+		}
+		active_memtable.add(batch)
+	}
+}
+
 impl CommitEnv for LsmCommitEnv {
 	// Write batch to WAL with inline values (synchronous operation).
 	// VLog separation is deferred to memtable flush time.
@@ -946,6 +969,8 @@ impl CommitEnv for LsmCommitEnv {
 		if sync {
 			wal_guard.sync()?;
 		}
+		// Remember which segment holds the record (see `add_to_active`).
+		processed_batch.wal_number = Some(wal_guard.get_active_log_number());
 		drop(wal_guard);
 
 		Ok(processed_batch)
@@ -958,7 +983,7 @@ impl CommitEnv for LsmCommitEnv {
 		// Try to add to current memtable
 		let result = {
 			let active_memtable = self.core.active_memtable.read()?;
-			active_memtable.add(batch)
+			self.add_to_active(&active_memtable, batch)
 		};
 
 		match result {
@@ -976,7 +1001,7 @@ impl CommitEnv for LsmCommitEnv {
 
 				// Retry on new memtable - must succeed
 				let active_memtable = self.core.active_memtable.read()?;
-				active_memtable.add(batch)
+				self.add_to_active(&active_memtable, batch)
 			}
 			Err(e) => Err(e),
 		}
